@@ -99,7 +99,9 @@ def value_line(o):
 
 
 HOST_CTYPE = "ty * bytes * Z * val * Z * Z * bytes * N"
-# the Go allocation (TotalAlloc delta around Decode) must be covered by the model's accounting: validates `al` from below
+# the Go allocation (TotalAlloc delta around Decode) must be covered by the model's accounting (an upper bound on the
+# implementation by the model: memory the model does not account, e.g. a length prefix allocated before its bounds check, is a
+# mismatch); this validates the constants of `al` from below
 HOST_AGREE = """  let '(t, bs, cls, dv, csm, re, bs2, goal) := c in
   let r := decode reg (fuel_for bs) t bs in
   (N.leb goal (3 * res_alloc r + 256 * N.of_nat (length bs) + 524288)) &&
